@@ -35,8 +35,16 @@ func checkC13Scte(c CaseC13Scte, x *hx.Ctx) *hx.Failure {
 		st.sig = buildSpliceAPI(&st.m, c.C.Noise)
 	default:
 		in := append([]byte{0}, c.C.Splice.Encode()...)
+		if c.C.BadCRC > 0 {
+			// the input's own CRC_32 is stale: whatever the decoder accepts and the encoder emits must carry a correct one
+			in[len(in)-1-(c.C.BadCRC-1)/8] ^= 1 << uint((c.C.BadCRC-1)%8)
+			x.Label("input-crc-stale")
+		}
 		s, err := scte35.NewSCTE35(in)
 		if err != nil {
+			if c.C.BadCRC > 0 {
+				return nil // a decoder may verify CRC_32; only what it accepts must be re-emitted correctly
+			}
 			return hx.Failf("decode-error", "NewSCTE35 failed on a well-formed section: %v", err)
 		}
 		st.sig = s
@@ -69,10 +77,12 @@ func checkC13Pmt(c CaseC14, x *hx.Ctx) *hx.Failure {
 	m := &c.PMT
 	car := ref.Carrier{Pointer: c.Pointer, Trailing: c.Trailing}
 	payload := car.Payload(m.Section())
-	// (a stale input CRC_32 is no longer derived from the case: such a PMT is not well-formed, and a filter that passes its
-	// input through when nothing is removed - as the statement of C14 prescribes for an empty PID list - emits what it was
-	// given; an explicit crc_flip in a replay file is still honoured)
+	// the input's own CRC_32 may be stale (the flip is derived from the case): "every section the library emits" carries no
+	// restriction to well-formed input, and what the filter accepts and re-emits must be valid (a pass-through has to verify first)
 	flip := c.CRCFlip
+	if flip == 0 && (c.CC+c.Pointer+len(c.Request))%3 == 0 {
+		flip = uint32(c.CC+1) << uint(c.Pointer%28)
+	}
 	if flip != 0 {
 		end := 1 + c.Pointer + len(m.Section())
 		for i := 0; i < 4; i++ {
